@@ -133,6 +133,13 @@ def run_validators(job):
         except Exception as e:
             res.append({"error": err(e)})
     out["tc"] = res
+    # the documented option list (what bilby / pycbc use to enumerate nessai's settings)
+    try:
+        from nessai.utils.settings import get_all_kwargs
+        out["documented"] = {"std": sorted(get_all_kwargs(importance_nested_sampler=False)),
+                             "ins": sorted(get_all_kwargs(importance_nested_sampler=True))}
+    except Exception as e:
+        out["documented"] = {"error": err(e)}
     return out
 
 
